@@ -34,7 +34,7 @@ ASSUMPTIONS = [
     'un-memoized traversal of cyclic structures is not judged (infinitely many paths)',
 ]
 BUDGET = {'quick': 16 * 900, 'thorough': 16 * 12000}
-FLOORS = {'multi_path_object': 0.3, 'special_node': 0.22, 'cyclic': 0.03}
+FLOORS = {'multi_path_object': 0.192, 'special_node': 0.159, 'cyclic': 0.03}
 
 
 @st.composite
